@@ -2,6 +2,7 @@
 # usage: tools/seed_regress.sh [seed-id...]   — apply every kept seeded change to /repo in turn, run the check of the
 # property it breaks (quick tier), restore /repo; prints one line per seed: caught-with-replay / caught-no-input / MISSED.
 cd /verif
+rm -rf /var/tmp/evidence.keep.$$; cp -a /verif/evidence /var/tmp/evidence.keep.$$   # evidence belongs to runs on the unchanged tree
 IDS="$*"; [ -z "$IDS" ] && IDS=$(ls -d seeded/*/ | xargs -n1 basename)
 for ID in $IDS; do
   P=$(python3 -c "import json;print(json.load(open('seeded/$ID/meta.json'))['breaks_property'])")
@@ -15,4 +16,5 @@ for ID in $IDS; do
   else echo "$ID $P caught-no-failing-input"; fi
 done
 python3 translate/tables.py lean >/dev/null; python3 translate/terms.py lean >/dev/null; python3 translate/uff.py lean >/dev/null
+rm -rf /verif/evidence; mv /var/tmp/evidence.keep.$$ /verif/evidence
 git -C /repo status --short | head -3
